@@ -350,6 +350,27 @@ def check_generated(ctx, tmpdir):
         sources.append(("DSF", byk["DSF"], byk["DSF"], lambda rng: dsf_tie.gen_file(rng, "save")))
     if "ASF" in byk:
         sources.append(("ASF", byk["ASF"], byk["ASF"], lambda rng: asf_tie.gen_file(rng)))
+    # the other ties' generators: MP4 atom layouts, FLAC block sequences, Ogg streams of every codec, ID3 tags in front
+    # of arbitrary bytes (the ID3 tag class itself)
+    try:
+        import mp4file_tie, flacload_tie, ogginject_tie, id3file_tie
+        from mutagen.id3 import ID3
+
+        def two(fn):
+            def g(rng):
+                r = fn(rng)
+                return r[0], str(r[1]).split(":")[0].split(",")[0][:24] or "file", None
+            return g
+        sources.append(("MP4", byk["MP4"], byk["MP4"], two(mp4file_tie.gen_file)))
+        sources.append(("FLAC", byk["FLAC"], byk["FLAC"], two(flacload_tie.gen_flac)))
+        for codec, kind in (("vorbis", "OggVorbis"), ("opus", "OggOpus"), ("speex", "OggSpeex"), ("theora", "OggTheora")):
+            if codec in ogginject_tie.CODECS and kind in byk:
+                sources.append((kind, byk[kind], byk[kind], (lambda rng, codec=codec: ogginject_tie.gen_file(rng, codec))))
+        sources.append(("ID3-tag", _PseudoFmt("ID3", "id3", type("StrictID3gen", (_TagFile,), {"tagcls": ID3, "nohdr": ID3NoHeaderError, "lenient": False})),
+                        _PseudoFmt("ID3", "id3", type("LenientID3gen", (_TagFile,), {"tagcls": ID3, "nohdr": ID3NoHeaderError, "lenient": True})),
+                        two(id3file_tie.gen_file)))
+    except ImportError as e:
+        ctx.notes.append("c17.check_generated: generator unavailable: %s" % e)
     for label, fstrict, flenient, gen in sources:
         rng = random.Random(ctx.seed * 7919 + len(label) * 31 + ord(label[0]))
         # every kind of the generator several times (the kinds are drawn with very unequal weights)
